@@ -204,49 +204,3 @@ COMMON_ASSUMPTIONS = [
     "std::pow (libm) and libgcc's complex division / NaN recovery of complex multiplication are not modelled: such cases are run on the library (oracles apply) but not compared with the model",
     "RealDouble/ComplexDouble __eq__ is modelled as a value comparison of two distinct objects (the pointer-identity shortcut of eq() matters only for a NaN compared with itself)",
 ]
-
-
-# ---------------------------------------------------------------------------- Coq palette
-def coq_num(s):
-    if s == "NAN":
-        return "NNaN"
-    tag, body = s.split(":", 1)
-
-    def q(b):
-        n, d = b.split("/") if "/" in b else (b, "1")
-        return "(%d) %d" % (int(n), int(d))
-    if tag == "I":
-        return "NInt (%d)" % int(body)
-    if tag == "R":
-        return "NRat %s" % q(body)
-    if tag == "C":
-        re_, im = body.split(",")
-        return "NCplx %s %s" % (q(re_), q(im))
-    if tag == "D":
-        return "NDbl %d" % int(body, 16)
-    if tag == "CD":
-        re_, im = body.split(",")
-        return "NCDbl %d %d" % (int(re_, 16), int(im, 16))
-    if tag == "INF":
-        return "NInf (%d)" % int(body)
-    raise ValueError(s)
-
-
-def coq_palette():
-    """text of coq/Num/NumPalette.v: the palettes of this module as Coq lists (the palette theorems
-    of C29 quantify over real_palette)"""
-    out = ("(* GENERATED by checks/numcommon.py (coq_palette) from the palettes the checks run on the library;\n"
-           "   the checks compare this file with the generator's output on every run. *)\n"
-           "From SE Require Import Num.NumDefs.\nLocal Open Scope Z_scope.\nLocal Open Scope N_scope.\n")
-    out += "Definition real_palette : list number :=\n  [" + ";\n   ".join(coq_num(x) for x in REAL_PALETTE) + "].\n"
-    out += "Definition full_palette : list number :=\n  [" + ";\n   ".join(coq_num(x) for x in PALETTE) + "].\n"
-    return out
-
-
-def check_palette(ctx):
-    import os
-    p = os.path.join(vlib.COQ, "Num", "NumPalette.v")
-    have = open(p).read() if os.path.exists(p) else ""
-    if have != coq_palette():
-        ctx.broken.append({"kind": "translator", "name": "Num/NumPalette.v",
-                           "detail": "coq/Num/NumPalette.v differs from the palette the check runs (regenerate with numcommon.coq_palette())"})
